@@ -2,7 +2,7 @@
 
 EVS = ['e0', 'e1', 'e2', 'e3']
 METHS = ['m0', 'm1', 'm2']
-ARGS = ['_', '1', '0.N', 'sa.2', '1|k=2', '_|a=N.b=sx', '7.8.9']
+ARGS = ['_', '1', '0.N', 'sa.2', '1|k=2', '_|a=N.b=sx', '7.8.9', '1|event=2', '_|handler=N.name=sx']
 
 
 def gen_universe(rng, max_classes=5, max_objs=5, mixins=True, evs=None):
